@@ -259,6 +259,14 @@ pub fn parse_slice(data: &[u8], cfg: &RCfg) -> Parse {
 /// after a `None` while the source still has data; `pauses` counts them. With pauses the iterator must return
 /// `None` at each.
 pub fn parse_scripted(src: ScriptedRead, cfg: &RCfg) -> (Parse, ScriptedRead, usize) {
+    parse_scripted_fin(src, cfg, false)
+}
+
+/// As `parse_scripted`; with `finalize`, once the source is exhausted for good and the reader has returned None
+/// (twice: an extra poll must change nothing), end-of-stream closing is switched on and the parse continues — the way a
+/// live-stream consumer closes the document when it learns the stream is over.
+pub fn parse_scripted_fin(src: ScriptedRead, cfg: &RCfg, finalize: bool) -> (Parse, ScriptedRead, usize) {
+    let mut finalized = !finalize;
     let len = src.data.len();
     let mut it = make_iter(src, cfg);
     let mut items = Vec::new();
@@ -281,6 +289,16 @@ pub fn parse_scripted(src: ScriptedRead, cfg: &RCfg) -> (Parse, ScriptedRead, us
             Ev::None => {
                 if it.get_ref().at_stop() && pauses < len + 8 {
                     pauses += 1;
+                    continue;
+                }
+                if !finalized {
+                    finalized = true;
+                    let again = next_ev(&mut it, step_budget(len, items.len()));
+                    if again != Ev::None {
+                        end = Ev::Caught(Caught::Hang(format!("a second poll at end of input returned {} instead of None", again.short())));
+                        break;
+                    }
+                    it.emit_master_end_when_eof(true);
                     continue;
                 }
                 end = Ev::None;
